@@ -342,3 +342,137 @@ Theorem C16_equivalent_keys_accepted :
     forall v, signed_loads V mac dsize deser k2 (signed_dumps V mac ser k1 v) = Ok v.
 Proof. exact equivalent_keys_accepted. Qed.
 Print Assumptions C16_equivalent_keys_accepted.
+
+(* ===== the signed value through an ACTUAL cookie (Model/C16_transport.v over C07's cookie codec model) =====
+   Set-Cookie side  : set_cookie_line = C07's make_cookie (Morsel.serialize, _value_quote, _path_quote, _valid_cookie_name)
+   client           : keeps the cookie-pair (text before the first ';'), sends it among its other cookies joined by "; "
+   Cookie side      : request_jar = C07's request_cookies (scanner model of _rx_cookie.findall, _unquote, utf-8 decode,
+                      later pair wins) followed by dict lookup = self.request.cookies.get(cookie_name)
+   The browser-leg law that C16_profile_roundtrip takes as a hypothesis is PROVED here from C07's lemmas. *)
+From Coq Require Import String.
+From Coq Require Import List.
+Require Import Webob.Lib.C07_Utf8 Webob.Proofs.C07_input Webob.Model.C16_transport Webob.Proofs.C16_transport.
+
+(* --- every text SignedSerializer.dumps can produce is emitted UNQUOTED and UNCHANGED by _value_quote, and _unquote
+       gives it back unchanged - for every payload, key (secret/salt), mac and serializer --- *)
+Theorem C16_token_unquoted :
+  forall (V : Type) (mac : bytes -> bytes -> bytes) (ser : V -> bytes) (key : bytes) (v : V),
+    C07_CookieCodec.value_quote (signed_dumps V mac ser key v) = signed_dumps V mac ser key v /\
+    C07_CookieCodec.unquote (signed_dumps V mac ser key v) = signed_dumps V mac ser key v.
+Proof.
+  exact (fun V mac ser key v =>
+           conj (value_quote_b64url _ (dumps_alphabet V mac ser key v)) (unquote_b64url _ (dumps_alphabet V mac ser key v))).
+Qed.
+Print Assumptions C16_token_unquoted.
+
+(* --- the Set-Cookie value C07's make_cookie model emits for an issued token IS the plain line the C16 model uses --- *)
+Theorem C16_set_cookie_line_is_make_cookie :
+  forall (V : Type) (mac : bytes -> bytes -> bytes) (ser : V -> bytes) (key : bytes) (v : V) (name : str) (dom : option str),
+    C07_CookieCodec.valid_cookie_name name = true ->
+    (forall d, dom = Some d -> plain_domain d) ->
+    set_cookie_line name dom (signed_dumps V mac ser key v)
+    = C07_CookieCodec.Ok (mk_cookie_plain name dom (signed_dumps V mac ser key v)).
+Proof.
+  exact (fun V mac ser key v name dom Hn Hd => set_cookie_line_plain name dom _ Hn (dumps_alphabet V mac ser key v) Hd).
+Qed.
+Print Assumptions C16_set_cookie_line_is_make_cookie.
+
+(* --- cookie_parse (cookie_render name (signed payload)) = signed payload, among arbitrary other cookies
+       (l before, r after; a later cookie of the same name would win, so there is none in r) --- *)
+Theorem C16_cookie_parse_render :
+  forall (V : Type) (mac : bytes -> bytes -> bytes) (ser : V -> bytes) (key : bytes) (v : V)
+         (l r : list (str * str)) (name : str) (dom : option str),
+    Forall text_pair l -> Forall text_pair r ->
+    C07_CookieCodec.valid_cookie_name name = true -> ~ In name (map fst r) ->
+    echo_among l r name (mk_cookie_plain name dom (signed_dumps V mac ser key v))
+    = JarValue (signed_dumps V mac ser key v).
+Proof.
+  exact (fun V mac ser key v l r name dom Hl Hr Hn Hr' =>
+           echo_among_plain l r name dom _ Hl Hr Hn Hr' (dumps_alphabet V mac ser key v)).
+Qed.
+Print Assumptions C16_cookie_parse_render.
+
+(* --- END TO END: value --dumps--> Set-Cookie value --client echo--> Cookie header among other cookies
+       --request.cookies--> get_value = the original value; no hypothesis on the transport is left --- *)
+Theorem C16_cookie_roundtrip :
+  forall (V : Type) (mac : bytes -> bytes -> bytes) (dsize : nat) (ser : V -> bytes) (deser : bytes -> res V),
+    (forall k m, length (mac k m) = dsize) ->
+    (forall v, deser (ser v) = Ok v) ->
+    (forall k m, bytesP (mac k m)) -> (forall v, bytesP (ser v)) ->
+    forall (l r : list (str * str)) p v key,
+      Forall text_pair l -> Forall text_pair r ->
+      C07_CookieCodec.valid_cookie_name (sp_name p) = true -> ~ In (sp_name p) (map fst r) ->
+      salted_secret (sp_salt p) (sp_secret p) = Some key ->
+      (length (signed_dumps V mac ser key v) <= 4093)%nat ->
+      exists h hs,
+        sp_get_headers V mac ser p v = Some (Ok (h :: hs)) /\
+        forall x, In x (h :: hs) ->
+          sp_get_value V mac dsize deser (sp_bind p (echo_among l r (sp_name p) x)) = Some (Ok (Some v)).
+Proof. exact cookie_roundtrip. Qed.
+Print Assumptions C16_cookie_roundtrip.
+
+(* --- TAMPER at the cookie level: the echoed cookie value is replaced by ANY text t' (any change that still parses:
+       sent as its utf-8 octets b', quoted/escaped as needed, among the other cookies).  Under the unforgeability
+       hypothesis on t' the bound profile returns the signed value exactly when t' decodes to the signed octets,
+       None otherwise, and never another value --- *)
+Theorem C16_cookie_altered :
+  forall (V : Type) (mac : bytes -> bytes -> bytes) (dsize : nat) (ser : V -> bytes) (deser : bytes -> res V),
+    (forall k m, length (mac k m) = dsize) ->
+    (forall v, deser (ser v) = Ok v) ->
+    forall (l r : list (str * str)) p key v (t' b' : str),
+      Forall text_pair l -> Forall text_pair r ->
+      C07_CookieCodec.valid_cookie_name (sp_name p) = true -> ~ In (sp_name p) (map fst r) ->
+      utf8_encode t' = Some b' ->
+      salted_secret (sp_salt p) (sp_secret p) = Some key ->
+      (forall bb c, latin1 t' = Some bb -> c <> ser v -> decoded bb <> Some (mac key c ++ c)) ->
+      let j := request_jar (cookie_header l (sp_name p ++ 61%N :: C07_CookieCodec.value_quote b') r) (sp_name p) in
+      (forall v', sp_get_value V mac dsize deser (sp_bind p j) = Some (Ok (Some v')) -> v' = v) /\
+      (forall bb, latin1 t' = Some bb -> decoded bb = Some (signed_bytes V mac ser key v) ->
+         sp_get_value V mac dsize deser (sp_bind p j) = Some (Ok (Some v))) /\
+      ((forall bb, latin1 t' = Some bb -> decoded bb <> Some (signed_bytes V mac ser key v)) ->
+         sp_get_value V mac dsize deser (sp_bind p j) = Some (Ok None)).
+Proof. exact cookie_altered. Qed.
+Print Assumptions C16_cookie_altered.
+
+(* --- ... and for ANY Cookie header whatsoever (well-formed or not): whatever request.cookies.get yields for it,
+       get_value never returns another value, returns None when the header cannot be decoded, the cookie is missing or
+       its text does not decode to the signed octets --- *)
+Theorem C16_any_cookie_header_integrity :
+  forall (V : Type) (mac : bytes -> bytes -> bytes) (dsize : nat) (ser : V -> bytes) (deser : bytes -> res V),
+    (forall k m, length (mac k m) = dsize) ->
+    (forall v, deser (ser v) = Ok v) ->
+    forall p key (hdr : str) v,
+      salted_secret (sp_salt p) (sp_secret p) = Some key ->
+      let j := request_jar hdr (sp_name p) in
+      (forall t bb c, j = JarValue t -> latin1 t = Some bb -> c <> ser v -> decoded bb <> Some (mac key c ++ c)) ->
+      (forall v', sp_get_value V mac dsize deser (sp_bind p j) = Some (Ok (Some v')) -> v' = v) /\
+      (forall t bb, j = JarValue t -> latin1 t = Some bb -> decoded bb = Some (signed_bytes V mac ser key v) ->
+         sp_get_value V mac dsize deser (sp_bind p j) = Some (Ok (Some v))) /\
+      ((j = JarRaises \/ j = JarMissing \/
+        exists t, j = JarValue t /\ forall bb, latin1 t = Some bb -> decoded bb <> Some (signed_bytes V mac ser key v)) ->
+         sp_get_value V mac dsize deser (sp_bind p j) = Some (Ok None)).
+Proof.
+  exact (fun V mac dsize ser deser ML DS p key hdr v Hk =>
+           bound_integrity V mac dsize ser deser ML DS p key (request_jar hdr (sp_name p)) v Hk).
+Qed.
+Print Assumptions C16_any_cookie_header_integrity.
+
+(* --- the hypotheses are satisfiable: cookie "session" between  a=1; lang=<e-acute>  and  z="y x\073" --- *)
+Example C16_cookie_hyps_satisfiable :
+  Forall text_pair ex_before /\ Forall text_pair ex_after /\
+  C07_CookieCodec.valid_cookie_name ex_name = true /\ ~ In ex_name (map fst ex_after) /\
+  plain_domain (H "6578616d706c652e636f6d"%string).
+Proof.
+  exact (conj (proj1 ex_text_pairs) (conj (proj2 ex_text_pairs) (conj (proj1 ex_name_ok) (conj (proj2 ex_name_ok) ex_plain_domain)))).
+Qed.
+
+(* a concrete run of the whole chain with the toy mac/serializer: token issued for 5, Set-Cookie with a Domain, echoed
+   among three other cookies, read back and verified *)
+Example C16_concrete_cookie_roundtrip :
+  let tok := signed_dumps nat toy_mac toy_ser [7; 7]%N 5%nat in
+  set_cookie_line ex_name (Some (H "6578616d706c652e636f6d"%string)) tok
+    = C07_CookieCodec.Ok (mk_cookie_plain ex_name (Some (H "6578616d706c652e636f6d"%string)) tok) /\
+  get_value_bound nat (signed_loads nat toy_mac 1 toy_deser [7; 7]%N)
+    (echo_among ex_before ex_after ex_name (mk_cookie_plain ex_name (Some (H "6578616d706c652e636f6d"%string)) tok))
+    = Some 5%nat.
+Proof. vm_compute. split; reflexivity. Qed.
